@@ -76,7 +76,17 @@ def run_group(ctx, edges, kind, ic, hier_kind, inputs, stream):
     cases = []
     with warnings.catch_warnings():
         warnings.simplefilter('ignore')
-        g = gl.build_impl('indexed', edges)
+        g = gl.build_impl(['indexed', 'indexed', 'incremental'][len(edges) % 3], edges)
+        if (len(edges) + len(inputs)) % 2 == 0:
+            # the hierarchy has been USED before it is handed to the sorter: predicates (which may stop a traversal at the first hit),
+            # a traversal abandoned after one element - sorting must not care
+            ns = [t for t in g]
+            for a in ns[:6]:
+                for b in ns[:6]:
+                    g.is_ancestor_of(a, b)
+                    g.is_descendant_of(a, b)
+                next(iter(g.get_ancestors(a)), None)
+                next(iter(g.get_descendants(a)), None)
         hierarchy = g
         if hier_kind == 'ontology':
             terms = [MinimalTerm.create_minimal_term(t, name=t.value, alt_term_ids=(), is_obsolete=False) for t in g]
@@ -211,6 +221,7 @@ def run(ctx):
                 ic = random_ic(rng, edges) if kind == 'ic' else None
                 run_group(ctx, edges, kind, ic, rng.choice(['graph', 'ontology']), inputs, 'exhaustive.len<=4.over-3-ids')
     ctx.exhaustive['all sequences of length <= 4 over 3 ids on 4 fixed DAGs x {edge, IC} sorters (one sorter instance per group)'] = True
+    deep_hierarchy(ctx, rng, 1300 if not thorough else 3500)
     for _ in range(300 if thorough else 60):
         edges = single_rooted(rng, rng.randrange(2, 26 if thorough else 13))
         nodes = gl.nodes_of(edges)
@@ -222,7 +233,36 @@ def run(ctx):
             run_group(ctx, edges, kind, ic, rng.choice(['graph', 'ontology']), inputs, 'random')
 
 
+def deep_hierarchy(ctx, rng, depth):
+    """a chain deeper than the interpreter's recursion limit, with a few twigs: both sorters must still return a permutation"""
+    from hpotk.model import TermId
+    ids = [f'HP:{i:07d}' for i in range(1, depth + 1)]
+    edges = [(ids[i], ids[i - 1]) for i in range(1, depth)] + [(f'HP:9{i:06d}', ids[rng.randrange(depth)]) for i in range(6)]
+    with warnings.catch_warnings():
+        warnings.simplefilter('ignore')
+        for f in ('indexed', 'incremental'):
+            g = gl.build_impl(f, edges)
+            for kind in ('edge', 'ic'):
+                sorter = make_sorter(kind, g, {ids[-1]: 3.0, ids[depth // 2]: 2.0, ids[1]: 1.0})
+                items = [ids[-1], ids[depth // 2], 'HP:9000001', ids[-2], ids[3], 'HP:9000004']
+                ctx.case(['deep', depth, f, kind], True, 'deep-hierarchy', sample={'depth': depth, 'factory': f, 'sorter': kind})
+                try:
+                    res = tuple(int(i) for i in sorter.argsort([TermId.from_curie(x) for x in items]))
+                    problem = None if sorted(res) == list(range(len(items))) else f'not a permutation: {res}'
+                except RecursionError as e:
+                    problem = f'raises RecursionError on a hierarchy of depth {depth}'
+                except Exception as e:  # noqa
+                    problem = f'raises {type(e).__name__}: {str(e)[:200]}'
+                if problem:
+                    ctx.violation(f'{kind}:deep-hierarchy', {'case': {'kind': 'deep', 'depth': depth, 'factory': f, 'sorter': kind, 'items': items},
+                                                             'impl': problem, 'theorem': THEOREM})
+                    return
+
+
 def replay(ctx, data):
     c = data['case']
+    if c.get('kind') == 'deep':
+        deep_hierarchy(ctx, ctx.rng, c['depth'])
+        return
     run_group(ctx, [tuple(e) for e in c['edges']], c['sorter'], c.get('ic'), c.get('hierarchy', 'graph'),
               [list(x) for x in c['calls_on_this_sorter']], 'replay')
